@@ -423,6 +423,21 @@ spif_objpair_t
 spif_objpair_dup(spif_objpair_t self)
 {
     ASSERT_RVAL(!SPIF_OBJPAIR_ISNULL(self), (spif_objpair_t) NULL);
+    if (SPIF_OBJ_ISNULL(self->value)) {
+        /* A pair may hold a key only, a value only, or nothing yet. */
+        if (SPIF_OBJ_ISNULL(self->key)) {
+            spif_objpair_t tmp;
+
+            tmp = spif_objpair_new();
+            if (!SPIF_OBJPAIR_ISNULL(tmp)) {
+                tmp->key = tmp->value = (spif_obj_t) NULL;
+            }
+            return tmp;
+        }
+        return spif_objpair_new_from_key(self->key);
+    } else if (SPIF_OBJ_ISNULL(self->key)) {
+        return spif_objpair_new_from_value(self->value);
+    }
     return spif_objpair_new_from_both(self->key, self->value);
 }
 
